@@ -30,6 +30,17 @@ def moLoad (db : Mo.CodecDB) (view : Mo.Bytes) (retry : Bool) : Except LoadErr M
   | .error .decode => .error .unicodeDecode
   | .error (.crash _) => .error .other
 
+/-- `polib.pofile(path)` / `polib.pofile(path, encoding='ISO-8859-1')` as `Checker.check` sees it (cf. `Po.checkerLoad`) -/
+def poLoad (env : Po.Env) (file : Po.Bytes) (retry : Bool) : Except LoadErr Po.PoFile :=
+  match (if retry then Po.loadWith env Po.latin1Name file else Po.load env file) with
+  | .ok f => .ok f
+  | .error (.syntax _ _) => .error .poSyntax
+  | .error .decode => .error .unicodeDecode
+  | .error .crash => .error .other
+
+/-- what lib/check/ can see of a loaded PO file: the header comment and the entries without polib's `linenum` -/
+def poView (f : Po.PoFile) : Po.Text × List Po.Entry := (f.header, f.entries.map fun e => { e with linenum := 0 })
+
 /-! ## the polib entry model both loaders produce -/
 
 /-- a polib entry as far as lib/check/ reads it (`Generated.BinaryReads.entryAttrs`) -/
